@@ -452,6 +452,7 @@ func run(t *rapid.T, prop string) {
 			b.MaxRows = 80
 		}
 	}
+	b.Clustered = b.MaxRows >= 80 && rapid.IntRange(0, 2).Draw(t, "clustered") == 0
 	fs := gen.DrawFrame(t, b)
 	scr := gen.DrawLayoutScramble(t, fs)
 	tr := &trace{Frame: fs, Scramble: scr}
@@ -465,6 +466,18 @@ func run(t *rapid.T, prop string) {
 	nk := rapid.IntRange(0, len(dataCols)).Draw(t, "nkeys")
 	perm := rapid.Permutation(dataCols).Draw(t, "keyperm")
 	tr.Keys = perm[:nk]
+	// now and then exactly the columns the frame was last sorted on
+	for i := len(scr.Ops) - 1; i >= 0; i-- {
+		if op := scr.Ops[i]; op.Kind == "sort" && op.Col2 != "" && op.Col2 != op.Col && op.Col != "__id" && op.Col2 != "__id" {
+			if rapid.IntRange(0, 2).Draw(t, "sortkeys") == 0 {
+				tr.Keys = []string{op.Col, op.Col2}
+				if rapid.Bool().Draw(t, "sortkeysrev") {
+					tr.Keys = []string{op.Col2, op.Col}
+				}
+			}
+			break
+		}
+	}
 	tr.Null = rapid.Bool().Draw(t, "groupnull")
 	tr.Hash = drawFlavour(t)
 	tr.RandSeed = rapid.Int64().Draw(t, "randseed")
